@@ -76,6 +76,12 @@ pub fn out_root() -> PathBuf {
     std::env::var("VERIF_OUT").map(PathBuf::from).unwrap_or_else(|_| PathBuf::from(VERIF))
 }
 
+/// The running executable, by a path that survives a rebuild of the binary during the run.
+pub fn self_exe() -> PathBuf {
+    let p = PathBuf::from("/proc/self/exe");
+    if p.exists() { p } else { std::env::current_exe().unwrap_or_else(|e| machinery_error(&format!("{e}"))) }
+}
+
 pub fn ncores() -> usize {
     std::env::var("VERIF_JOBS")
         .ok()
@@ -160,6 +166,10 @@ pub struct Reporter {
 
 impl Reporter {
     pub fn new(id: &str, level: &'static str, args: &Args) -> Self {
+        if std::env::var("VERIF_WORKER").is_err() {
+            // replay files of an earlier run would otherwise sit next to this run's
+            let _ = std::fs::remove_dir_all(out_root().join("replays").join(id));
+        }
         Reporter {
             id: id.to_string(),
             level,
@@ -544,8 +554,7 @@ pub fn ensure_shim(seed: u64) {
     if !shim_path().exists() {
         machinery_error("shim/getrandom.so is missing (run ./check setup)");
     }
-    let exe = std::env::current_exe().unwrap_or_else(|e| machinery_error(&format!("{e}")));
-    let err = std::process::Command::new(exe)
+    let err = std::process::Command::new(self_exe())
         .args(std::env::args().skip(1))
         .env("LD_PRELOAD", shim_path())
         .env("VERIF_HASH_SEED", seed.to_string())
